@@ -74,7 +74,13 @@ func HarnessC13Chain() {
 	for j := 0; j < r; j++ {
 		ropts = append(ropts, fox.WithMiddleware(t.mw(100+j)))
 	}
-	rte, err := router.Handle("GET", "/r", mark(hkRoute), ropts...)
+	// the route under test: static, or (infix=1) with a catch-all in the middle of its pattern
+	routePattern, routePath := "/r", "/r"
+	if sym.ParamOr("infix", 0) == 1 {
+		routePattern, routePath = "/r/*{any}/z", "/r/a/b/z"
+		sym.Cover("route with an infix catch-all")
+	}
+	rte, err := router.Handle("GET", routePattern, mark(hkRoute), ropts...)
 	sym.Assert(err == nil, "route registered")
 	if err != nil {
 		return
@@ -109,6 +115,9 @@ func HarnessC13Chain() {
 	}
 	for kind := 0; kind < nHandlerKinds; kind++ {
 		req := c20Request(kind)
+		if kind == hkRoute || kind == hkNoMethod || kind == hkOptions {
+			req.URL.Path = routePath
+		}
 		t.ids = nil
 		reached = -1
 		gh, esc := serveCapture(router, req)
@@ -140,13 +149,21 @@ func HarnessC13Chain() {
 	}
 	sym.Assert(sameInts(t.ids, routeOnly), "Route.HandleMiddleware runs only the route-specific chain")
 	// Update replaces the route-specific middleware
-	_, err = router.Update("GET", "/r", mark(hkRoute), fox.WithMiddleware(t.mw(300)))
+	_, err = router.Update("GET", routePattern, mark(hkRoute), fox.WithMiddleware(t.mw(300)))
 	sym.Assert(err == nil, "route updated")
 	t.ids = nil
-	serveCapture(router, c20Request(hkRoute))
+	ureq := c20Request(hkRoute)
+	ureq.URL.Path = routePath
+	serveCapture(router, ureq)
 	want := expect(hkRoute)
 	want = append(want[:len(want)-r:len(want)-r], 300)
 	sym.Assert(sameInts(t.ids, want), "Update replaces the route-specific middleware")
+	if lr, lc, _ := router.Lookup(richRecorder(&ghost{sc: &script{}, hdr: http.Header{}}), ureq); lc != nil {
+		t.ids = nil
+		lr.HandleMiddleware(lc)
+		sym.Assert(sameInts(t.ids, []int{300}), "the route a request is looked up to carries the updated route-specific middleware")
+		lc.Close()
+	}
 	sym.Cover("chains compared")
 	if g >= 3 {
 		sym.Cover("three or more global middleware")
